@@ -295,5 +295,138 @@ def rule_S6(ctx):
         ctx.ok("ex_arg", "%d substitute arguments with escaped delimiters and `|` split as the reference says" % n)
 
 
+def rule_S7(ctx):
+    """Stored text (a register, a script) is executed through ex_command(); a register or file
+    that runs itself would recurse without bound.  ex_command reaches ex_exec only under a test
+    of a static nesting counter against a constant, with the counter raised before and lowered
+    after the call on every path."""
+    ctx.begin("S7", floor=1, what="nesting of stored command text")
+    prog = ctx.prog
+    f = prog.func("ex_command", file="ex.c")
+    cfg = f.cfg
+    calls = list(f.calls("ex_exec"))
+    if not calls:
+        raise AnalysisBroken("ex_command does not call ex_exec")
+    # is there a cycle at all?  (a handler that calls ex_command back)
+    back = [g.name for g in prog.funcs.values() if g.file == "ex.c" and g.name != "ex_command" and
+            any(True for _ in g.calls("ex_command")) and prog.cg.reaches(prog.func("ex_exec"), [g.name], stop=set())]
+    if not back:
+        ctx.ok("ex_command", "no handler re-enters ex_command")
+        return
+    for c in calls:
+        guard = None
+        for cid, t in cfg.facts_at(c["id"]):
+            cc = f.nodes.get(cid)
+            if cc is None or cc["k"] != "bin" or cc["op"] not in ("<", "<=", ">", ">="):
+                continue
+            l, r = strip_casts(cc["l"]), strip_casts(cc["r"])
+            var, K = None, None
+            if l["k"] == "ref" and cval(r) is not None and l.get("cat") != "param":
+                var, K, lt = l["name"], cval(r), cc["op"] in ("<", "<=")
+            elif r["k"] == "ref" and cval(l) is not None and r.get("cat") != "param":
+                var, K, lt = r["name"], cval(l), cc["op"] in (">", ">=")
+            if var and lt == t:
+                guard = (var, K)
+        if guard is None:
+            ctx.violation("ex_command", "nested command text is depth-limited",
+                          "%s execute stored text through ex_command(), which calls ex_exec() without a test "
+                          "of a nesting counter: a register or script that runs itself recurses until the "
+                          "stack overflows" % ", ".join(sorted(back)), f.loc(c))
+            continue
+        var, K = guard
+        incs = [n for n, lv, op, rhs in stores(f.body) if lv["k"] == "ref" and lv["name"] == var
+                and op in ("post++", "pre++")]
+        decs = [n for n, lv, op, rhs in stores(f.body) if lv["k"] == "ref" and lv["name"] == var
+                and op in ("post--", "pre--")]
+        if any(cfg.dominates(i_, c) for i_ in incs) and any(cfg.postdominates(d_, c) for d_ in decs):
+            ctx.ok("ex_command", "ex_exec only while %s is below %d, raised before and lowered after the call "
+                   "(%s re-enter)" % (var, K, ", ".join(sorted(back))), loc=f.loc(c))
+        else:
+            ctx.violation("ex_command", "nested command text is depth-limited",
+                          "the nesting counter %s is tested but not raised before / lowered after ex_exec" % var,
+                          f.loc(c))
+
+
+def rule_B15(ctx):
+    """reg_putln cuts the old history text in place so that hist lines remain.  Evaluated
+    abstractly for hist = 1..4 over old texts of 0..4 lines (also an empty register): every
+    store into the old text is inside its block, and what is kept is at most hist - 1 lines."""
+    ctx.begin("B15", floor=1, what="in-place cut of the history register")
+    prog = ctx.prog
+    f = prog.func("reg_putln", file="vi.c")
+    n = 0
+    bad = None
+    for hist in (1, 2, 3, 4):
+        for nlines in range(0, 5):
+            old = b"".join(b"l%d\n" % i for i in range(nlines))
+            op_ = Ptr(tuple(old) + (0,))
+            op_.writes = []
+
+            def h_get(ip, fn, e, args, env, op_=op_):
+                return op_
+            ip = Interp(prog, hooks={"reg_get": h_get, "reg_put": lambda *a: None, "sbuf_make": lambda *a: {},
+                                     "sbuf_str": lambda *a: None, "sbuf_chr": lambda *a: None,
+                                     "sbuf_buf": lambda *a: Ptr((0,)), "sbuf_free": lambda *a: None},
+                        globals_={"xhist": hist})
+            try:
+                ip.call(f, [ord("/"), Ptr((0x7a, 0))])
+            except OverRead as e:
+                if bad is None:
+                    bad = ("with hist=%d and %s the cut writes outside the register's text (%s)" % (
+                        hist, "an empty register" if not nlines else "%d old lines" % nlines, e))
+                continue
+            except Unsupported as e:
+                raise AnalysisBroken("reg_putln not evaluable: %s" % e)
+            n += 1
+            cuts = [j for j, v in op_.writes if v == 0]
+            keep = min(cuts) if cuts else len(old)
+            kept_lines = old[:keep].count(b"\n") + (1 if keep and old[:keep][-1:] != b"\n" else 0)
+            if kept_lines > max(hist - 1, 0) and bad is None:
+                bad = ("with hist=%d and %d old lines, %d old line(s) (%r) are kept next to the new one" % (
+                    hist, nlines, kept_lines, old[:keep].decode()))
+    if bad:
+        ctx.violation("reg_putln", "history cut stays inside the register text", bad, f.loc(f.body))
+    else:
+        ctx.ok("reg_putln", "cut inside the block and at most hist - 1 old lines kept on %d (hist, old text) cases" % n)
+
+
+def rule_T9(ctx):
+    """The editor's own decoders never step or read past the terminator, also on a string that
+    ends inside a multi-byte sequence (the editor itself produces such strings when it cuts a
+    message to its buffer): uc_len, uc_code, uc_next, uc_slen evaluated abstractly on every
+    string of up to 4 bytes over a representative alphabet."""
+    ctx.begin("T9", floor=2, what="terminator-safe decoders of uc.c")
+    import itertools
+    prog = ctx.prog
+    alpha = [0x41, 0x80, 0xbf, 0xc3, 0xe2, 0xf0, 0xf8, 0xff]
+    fns = [(nm, prog.func(nm, file="uc.c")) for nm in ("uc_len", "uc_code", "uc_slen") if prog.has_func(nm, file="uc.c")]
+    if len(fns) < 2:
+        raise AnalysisBroken("uc.c: decoders not found")
+    n = 0
+    bad = {}
+    for L in range(0, 5):
+        for combo in itertools.product(alpha, repeat=L):
+            buf = tuple(combo) + (0,)
+            n += 1
+            for nm, fn in fns:
+                try:
+                    v = Interp(prog).call(fn, [Ptr(buf)])
+                except OverRead as e:
+                    bad.setdefault(nm, (buf, str(e)))
+                    continue
+                except Unsupported as e:
+                    raise AnalysisBroken("%s not evaluable: %s" % (nm, e))
+                if nm == "uc_len" and (not isinstance(v, int) or v > L or v < 0 or (L > 0 and v == 0)):
+                    bad.setdefault(nm, (buf, "returns %s for a string of %d bytes" % (v, L)))
+    show = lambda b_: "".join("\\x%02x" % x for x in b_[:-1])
+    for nm, fn in fns:
+        if nm in bad:
+            ctx.violation(nm, "decoder stays inside the string",
+                          "uc.c:%s(\"%s\"): %s -- a message cut inside a multi-byte character makes the "
+                          "renderer read past its buffer" % (nm, show(bad[nm][0]), bad[nm][1]), fn.loc(fn.body))
+        else:
+            ctx.ok(nm, "no step or read past the terminator on %d strings (truncated sequences included)" % n)
+
+
 RULES = {"M5": rule_M5, "L6": rule_L6, "P3": rule_P3, "X9": rule_X9, "U6": rule_U6, "T7": rule_T7,
-         "T8": rule_T8, "S6": rule_S6}
+         "T8": rule_T8, "S6": rule_S6, "S7": rule_S7, "B15": rule_B15, "T9": rule_T9}
